@@ -52,9 +52,10 @@ Definition w_resub :=
 Definition w_operand :=
   [def_fun ViaDefine [tIw "F"; tP "("; tI "x"; tP ","; tI "y"; tP ")"; tIw "x"; tIw "y"] "F" ["x"; "y"] false [tI "x"; tIw "y"];
    def_fun ViaDefine [tIw "S"; tP "("; tI "x"; tP ")"; tOw "#"; tI "x"] "S" ["x"] false [tO "#"; tI "x"]].
-Lemma refuted_operand_only_expanded :
-  disagree w_operand [tI "S"; tP "("; tI "F"; tP "("; tN "1"; tP ")"; tP ")"].
-Proof. closed_disagree. Qed.
+(* repaired: the argument of S is not expanded any more *)
+Lemma operand_only_now_conforms :
+  agree w_operand [tI "S"; tP "("; tI "F"; tP "("; tN "1"; tP ")"; tP ")"].
+Proof. closed_agree. Qed.
 
 (* the backstop: a chain a -> aa -> aaa -> ... of max_level object-like macros, the last one -> 1 *)
 Fixpoint rep (n : nat) : string := match n with O => "a" | S k => String "a" (rep k) end.
